@@ -39,7 +39,10 @@ SPEC = {
                 'IsTokenSupported is an oracle (flag carried in the token)',
                 'wall clock: expiry decisions are sampled only >= 1.5 ms away from the expiry instant',
                 'Go channels / select / sync.WaitGroup semantics as written in the model (one signal per rendezvous, random choice '
-                'between ready cases); Go race detector'],
+                'between ready cases); Go race detector',
+                'lock level: the extractor /verif/locks (syntactic classification, table of guarded fields, lists of read-only / mutating '
+                'method names such as Contains / Add / Remove); sync.RWMutex as modelled; the two mutexes are independent (no method of one '
+                'object calls the other while holding its lock - calls on other receivers are not followed)'],
     'assumptions': ['message ids identify messages (two messages with one id share a cache entry; its slot count is then the fetched one)',
                     'time advances between enqueue and dequeue (availableAt strictly in the past when a worker dequeues)',
                     'Close is called once (a second Close panics: close of closed channel)',
@@ -52,6 +55,14 @@ SPEC = {
                   'message is enabled whenever a worker is idle, otherwise a running fetch frees one; after Close nothing restarts and '
                   'every worker and signal sender can exit leaving nothing behind. Pre-repair code refuted: Observe blocks with 1 worker '
                   'and 2 uncached messages (F22a), expired data is served (F22b). '
+                  'Lock level (Model/Locks.v, Proofs/LocksP.v, lib/genlocks.py): the action programs of every method of msgQueue and '
+                  'inMemTokenDataCache (incl. the signal sender and the expiration goroutine) are extracted from the Go sources on every '
+                  'run and checked; by the general interleaving theorem, for any number of goroutines under any scheduler: no data race, '
+                  'id set and queue (cache value and expiry) change together or not at all, dequeue / containsMsg / size / get / set see one '
+                  'snapshot, no channel operation, WaitGroup wait or goroutine start while a mutex is held, a lock holder can always move. '
+                  'enqueue passes the lock discipline but is check-then-act (containsMsg in a read section, append in a later write '
+                  'section): with two concurrent Observe callers a message can be queued twice (F90, latent - one caller today; '
+                  'C19_enqueue_check_then_act_refuted; repair in fixes/F90.patch). '
                   'Not proved (tested every run, with the race detector): real-time behaviour and goroutine scheduling - Observe latency '
                   'under a 300 ms watchdog with all workers blocked, expiry against the wall clock, Close with fetches in flight, '
                   'goroutine count after Close.',
@@ -61,5 +72,7 @@ SPEC = {
     'modelled': 'compositeTokenDataObserver.Observe / merge / initTokenDataObservations (as a view on the model output), the '
                 'background / foreground choice and parameter passing of NewConfigBasedCompositeObservers (the configuration is the '
                 'specification), backgroundObserver.Observe / worker / Close, msgQueue.enqueue / dequeue / containsMsg, inMemTokenDataCache get / set / '
-                'expiration loop; the clock, the scheduler and the underlying observer are inputs',
+                'expiration loop; the clock, the scheduler and the underlying observer are inputs; lock level: every method of msgQueue / '
+                'inMemTokenDataCache as an action program extracted per run (mutex operations, accesses to msgs / msgIDs / inMemTokenData / '
+                'expiresAt, channel sends and receives, goroutine starts) over an interleaving semantics with one RWMutex per object',
 }
